@@ -121,8 +121,13 @@ fn maybe_build_string_diag(
     val: Option<StringConstant>,
     line: u32,
 ) -> DiagsBuilder {
-    val.map(|val| build_diag(var, Some(&string_suggestion_payload(var, &val)), val, line))
-        .unwrap_or_default()
+    val.map(|val| {
+        // a poetic string literal ends at the end of the line
+        let suggestion =
+            (!val.value.contains('\n')).then(|| string_suggestion_payload(var, &val));
+        build_diag(var, suggestion.as_deref(), val, line)
+    })
+    .unwrap_or_default()
 }
 
 fn array_push_suggestion_payload(var: &impl Render, val: NumericConstant) -> Option<String> {
